@@ -526,6 +526,7 @@ theorem ref_cmd (fuel : Nat) (ih : Ref fuel) :
   | exit n => simp only [execCmd, specCmd]; exact relS_finish' _ st0 _ _ rfl
   | setE on => simp only [execCmd, specCmd]; exact relS_finish' _ st0 _ _ rfl
   | setM on => simp only [execCmd, specCmd]; exact relS_finish' _ st0 _ _ rfl
+  | setP on => simp only [execCmd, specCmd]; exact relS_finish' _ st0 _ _ rfl
   | unknown => simp only [execCmd, specCmd]; exact relS_finish' _ st0 _ _ rfl
   | absent w r a => simp only [execCmd, specCmd]; exact relS_finish' _ st0 _ _ rfl
   | tick c k =>
